@@ -20,6 +20,7 @@ import (
 	"sync"
 	"syscall"
 	"testing"
+	"time"
 
 	fpgo "github.com/TeaEntityLab/fpGo/v2"
 	network "github.com/TeaEntityLab/fpGo/v2/network"
@@ -77,7 +78,7 @@ func (c *apiCase) isMultipart() bool {
 }
 
 type pval struct {
-	K string  `json:"k"` // "s" string, "i" int, "b" bool, "f" float
+	K string  `json:"k"` // "s" string, "i" int, "b" bool, "f" float64, "f32" float32, "i64" int64, "u8" uint8, "dur" time.Duration (a Stringer)
 	S string  `json:"s,omitempty"`
 	I int     `json:"i,omitempty"`
 	B bool    `json:"b,omitempty"`
@@ -92,6 +93,14 @@ func (p pval) value() interface{} {
 		return p.B
 	case "f":
 		return p.F
+	case "f32":
+		return float32(p.F)
+	case "i64":
+		return int64(p.I)
+	case "u8":
+		return uint8(p.I)
+	case "dur":
+		return time.Duration(p.I) * time.Millisecond
 	}
 	return p.S
 }
@@ -1150,7 +1159,18 @@ func genValue(t *rapid.T) pval {
 	case 1:
 		return pval{K: "b", B: rapid.Bool().Draw(t, "vb")}
 	case 2:
-		return pval{K: "f", F: rapid.SampledFrom([]float64{0.5, 2, -1.25, 1e21}).Draw(t, "vf")}
+		// values of other numeric types and a Stringer: "replaced by its value" is the value's default rendering
+		switch rapid.IntRange(0, 4).Draw(t, "numKind") {
+		case 0:
+			return pval{K: "f32", F: rapid.SampledFrom([]float64{0.1, 37.7749, 1.5, -2.3, 1e10}).Draw(t, "vf32")}
+		case 1:
+			return pval{K: "i64", I: rapid.IntRange(-5, 1<<40).Draw(t, "vi64")}
+		case 2:
+			return pval{K: "u8", I: rapid.IntRange(0, 255).Draw(t, "vu8")}
+		case 3:
+			return pval{K: "dur", I: rapid.IntRange(0, 90000).Draw(t, "vdur")}
+		}
+		return pval{K: "f", F: rapid.SampledFrom([]float64{0.5, 2, -1.25, 1e21, 0.1, 1e-7}).Draw(t, "vf")}
 	case 3:
 		// a value that is itself a placeholder token (kept only when harmless)
 		return pval{K: "s", S: "{" + rapid.SampledFrom(keyPool).Draw(t, "vtok") + "}"}
